@@ -256,24 +256,29 @@ func GetOnlyExplainErr(errMsg string) string {
 	zhLen := len(ExplainZh)
 	enLen := len(ExplainEn)
 	endLen := len(ErrEndFlag)
-	splitLen := zhLen
 	nullLen := 1 // err msg [说明: xxx] 里包含一个空需要处理
 	for {
-		s := strings.Index(errMsg, ExplainZh)
 		e := strings.Index(errMsg, ErrEndFlag) // 未发现的话, 为最后一句错误
-		if s == -1 || (e != -1 && s > e) {     // 说明为英文
-			s = strings.Index(errMsg, ExplainEn)
-			splitLen = enLen
+		clause := errMsg
+		if e != -1 {
+			clause = errMsg[:e]
 		}
-		if s == -1 { // 异常
-			break
+
+		// 每一句单独判断说明为中文还是英文(没有说明的句子直接跳过, 如: 验证规则写错的错误)
+		s, splitLen := strings.Index(clause, ExplainZh), zhLen
+		if enIndex := strings.Index(clause, ExplainEn); enIndex != -1 && (s == -1 || enIndex < s) {
+			s, splitLen = enIndex, enLen
 		}
+		if s != -1 && s+splitLen+nullLen <= len(clause) {
+			if buf.Len() > 0 {
+				buf.WriteString(ErrEndFlag)
+			}
+			buf.WriteString(clause[s+splitLen+nullLen:])
+		}
+
 		if e == -1 {
-			buf.WriteString(errMsg[s+splitLen+nullLen:])
 			break
 		}
-		buf.WriteString(errMsg[s+splitLen+nullLen : e])
-		buf.WriteString(ErrEndFlag)
 		errMsg = errMsg[e+endLen:]
 	}
 	return buf.String()
